@@ -3,6 +3,7 @@ package props
 import (
 	"bytes"
 	"fmt"
+	"sort"
 
 	"github.com/ClickHouse/ch-go/compress"
 	"github.com/ClickHouse/ch-go/proto"
@@ -47,6 +48,7 @@ func cutPositions(r *core.Run, idx int64, n int) []int {
 	for k := range set {
 		out = append(out, k)
 	}
+	sort.Ints(out)
 	return out
 }
 
@@ -169,6 +171,7 @@ func c07(r *core.Run) {
 		for v := range set {
 			revs = append(revs, v)
 		}
+		sort.Ints(revs)
 	}
 	for _, rev := range revs {
 		for k := 0; k < r.Pick(2, 12); k++ {
